@@ -164,6 +164,7 @@ PYVEC_TIE = {
  "C06": "_nanmean_weighted and _nanstd_weighted (the statistics the rejection bounds and the stopping rule are computed from)",
  "C11": "_nanmean_weighted and _nanstd_weighted (both denominators: nist and cheng)",
 }
+PYVEC_TIE["C11"] += " and the accessor layer HvsrAzimuthal.mean_fn_frequency/std_fn_frequency/mean_fn_amplitude/std_fn_amplitude (pooled peaks and statistical weights as inputs: weighted mean, Cheng denominator; equal to HvAz.meanFn/meanAmp on every state whose weights exist)"
 PYVEC_TIE["C05"] += " and the accessor layer HvsrTraditional.mean_fn_frequency/std_fn_frequency/mean_fn_amplitude/std_fn_amplitude (method, @property and imported estimator inlined; equal to HvTrad.meanFn/stdFn/meanAmp/stdAmp on every state)"
 
 for pid, what in PYVEC_TIE.items():
